@@ -171,8 +171,13 @@ class PathSens:
 
     # ------------------------------------------------------------------ env helpers
     @staticmethod
-    def _kill_local(env, l):
+    def _kill_local(env, l, dead=False):
         for k in [k for k in env if k[0] != "c" and k[1] == l]:
+            del env[k]
+        if dead:
+            return      # the storage ends, the value it held (and what was derived from it) does not change
+        # relations `x = l` / `x = !l` recorded for other locals no longer hold once l is assigned again
+        for k in [k for k, v in env.items() if k[0] == "rel" and v[1] == l]:
             del env[k]
 
     def _kill_prefix(self, env, root, s):
@@ -190,6 +195,10 @@ class PathSens:
         b = self.body
         if key[0] == "v":
             l = key[1]
+            rel = env.get(("rel", l))
+            if rel is not None and val in (0, 1):
+                # path-local relation recorded when a multi-definition bool was assigned from a value not yet known
+                self._learn(env, ("v", rel[1]), val if rel[0] == "id" else 1 - val, depth + 1)
             d = self.single.get(l)
             if d is None:
                 return
@@ -308,6 +317,8 @@ class PathSens:
                 r, s_ = self.canon_place(op["place"])
                 if s_ == () and ("v", r) in env:
                     new[("v", l)] = env[("v", r)]
+                elif s_ == () and r != l and b.local_ty(l) == "bool":
+                    new[("rel", l)] = ("id", r)
                 for key, v in env.items():
                     if key[0] == "d" and key[1] == r and key[2][:len(s_)] == s_:
                         new[("d", l, key[2][len(s_):])] = v
@@ -334,6 +345,8 @@ class PathSens:
             r, s_ = self.canon_place(rv["a"]["place"])
             if s_ == () and ("v", r) in env and b.local_ty(l) == "bool":
                 new[("v", l)] = 1 - env[("v", r)]
+            elif s_ == () and r != l and b.local_ty(l) == "bool":
+                new[("rel", l)] = ("not", r)
         elif k == "binop" and rv["op"] in ("Eq", "Ne", "Lt", "Le", "Gt", "Ge"):
             va = self._opval(env, rv["a"])
             vb = self._opval(env, rv["b"])
@@ -374,7 +387,7 @@ class PathSens:
                 self._kill_prefix(env, r, ps)
             elif k == "dead":
                 if s["l"] not in self.alias:
-                    self._kill_local(env, s["l"])
+                    self._kill_local(env, s["l"], dead=True)
         t = blk["term"]
         k = t["k"]
         out = []
